@@ -13,8 +13,11 @@ import (
 	"math/big"
 	"os"
 	"path/filepath"
+	"regexp"
 	"runtime/debug"
+	"runtime/metrics"
 	"slices"
+	"strconv"
 	"strings"
 	"syscall"
 	"testing"
@@ -22,6 +25,8 @@ import (
 
 	"github.com/miekg/dns"
 	"verifsim/core"
+	"verifsim/kernel"
+	"verifsim/props/common"
 	"verifsim/simfs"
 )
 
@@ -36,12 +41,28 @@ func (f File) Text() string {
 	if !f.NoEOL && len(f.Lines) > 0 {
 		s += "\n"
 	}
-	return s
+	return expand(s)
+}
+
+// rawRun is how a scenario spells a run of one raw octet (scenarios are JSON, which cannot carry
+// octets that are not UTF-8): <<80*300>> stands for 300 octets 0x80.
+var rawRun = regexp.MustCompile(`<<([0-9a-f]{2})\*([0-9]{1,5})>>`)
+
+func expand(s string) string {
+	if !strings.Contains(s, "<<") {
+		return s
+	}
+	return rawRun.ReplaceAllStringFunc(s, func(m string) string {
+		g := rawRun.FindStringSubmatch(m)
+		b, _ := strconv.ParseUint(g[1], 16, 8)
+		n, _ := strconv.Atoi(g[2])
+		return strings.Repeat(string([]byte{byte(b)}), n)
+	})
 }
 
 type Scenario struct {
 	RunSeed    uint64        `json:"run_seed"`
-	Kind       string        `json:"kind"` // zone | chain | readrr | privkey
+	Kind       string        `json:"kind"` // zone | chain | readrr | privkey | concurrent
 	Files      []File        `json:"files"`
 	Origin     string        `json:"origin"`
 	DefTTL     int           `json:"default_ttl,omitempty"` // 0 = not set
@@ -52,6 +73,8 @@ type Scenario struct {
 	Sweep      bool          `json:"sweep,omitempty"` // instead of the listed faults: a read error at every octet of every file, one parse each
 	Planted    *Planted      `json:"planted,omitempty"`
 	Intruder   bool          `json:"intruder,omitempty"`   // when Next has returned false, and before Err is asked, another parser is created and run on this goroutine (an application that handles several zones)
+	PollErr    bool          `json:"poll_err,omitempty"`   // the application asks Err() after every record (to log progress, to stop early), not only at the end
+	Registrar  int           `json:"registrar,omitempty"`  // kind "concurrent": another task makes this many PrivateHandle / PrivateHandleRemove calls (for a type the zone does not use) while this one parses; every read and open is a scheduling point
 	TruncLast  bool          `json:"trunc_last,omitempty"` // the last line of the top-level file is a record that stops before its last field (a domain name): the text ends in mid-record
 }
 
@@ -167,7 +190,21 @@ func genLines(r interface{ IntN(int) int }, n int, includes []string, damage boo
 				out = append(out, records[r.IntN(len(records))])
 				continue
 			}
-			switch r.IntN(12) {
+			switch r.IntN(13) {
+			case 12:
+				// character-strings longer than 255 octets made of octets that are not text: runs of UTF-8
+				// continuation octets, lead octets without a tail, 0xff; quoted, bare, and behind valid two-octet characters
+				n := []int{255, 256, 257, 300, 511, 600}[r.IntN(6)]
+				b := []string{"80", "bf", "c3", "ff", "e2", "a0"}[r.IntN(6)]
+				typ := []string{"TXT", "TXT", "SPF", "NINFO", "AVC"}[r.IntN(5)]
+				switch r.IntN(3) {
+				case 0:
+					out = append(out, fmt.Sprintf("hb 300 IN %s \"<<%s*%d>>\"", typ, b, n))
+				case 1:
+					out = append(out, fmt.Sprintf("hb 300 IN %s <<%s*%d>> tail", typ, b, n))
+				default:
+					out = append(out, fmt.Sprintf("hb 300 IN %s \"%s<<%s*%d>>x\"", typ, strings.Repeat("\u00e9", r.IntN(130)), b, n))
+				}
 			case 11:
 				// one modifier text used twice: over a range it fits, then over one where it would count below zero
 				off := []int{-7, -1, -100, -65536}[r.IntN(4)]
@@ -231,6 +268,8 @@ func Gen(seed uint64, tier string) any {
 		sc.Kind = "readrr"
 	case x < 16:
 		sc.Kind = "privkey"
+	case x < 21:
+		sc.Kind = "concurrent"
 	}
 	sc.Origin = core.Pick(r, "example.org.", "example.org.", "example.org", "", ".", "bad..origin.")
 	sc.DefTTL = core.Pick(r, 0, 0, 3600, 1)
@@ -238,6 +277,7 @@ func Gen(seed uint64, tier string) any {
 	sc.ByteReader = core.Chance(r, 30)
 	sc.ShortRead = core.Pick(r, 0, 0, 30, 90)
 	sc.Intruder = core.Chance(r, 30)
+	sc.PollErr = core.Chance(r, 30)
 	switch sc.Kind {
 	case "chain":
 		sc.Include = true
@@ -304,6 +344,19 @@ func Gen(seed uint64, tier string) any {
 	}
 	if sc.Kind == "zone" && core.Chance(r, 3) {
 		sc.Sweep = true
+	}
+	if sc.Kind == "concurrent" {
+		// the parser nests (a $GENERATE, an $INCLUDE when there is a second file) while another task registers
+		// and removes a private type; no disk faults here
+		sc.Include, sc.Registrar = true, 1+r.IntN(4)
+		extra := []string{"$GENERATE 1-3 cc$ A 10.9.0.$"}
+		if len(sc.Files) > 1 {
+			extra = append(extra, "$INCLUDE /"+sc.Files[1].Name)
+		}
+		if balanced(sc.Files[0].Lines) {
+			sc.Files[0].Lines = append(sc.Files[0].Lines, extra...)
+		}
+		return sc
 	}
 	// faults
 	if core.Chance(r, 65) && len(sc.Files) > 0 {
@@ -501,21 +554,28 @@ func Shrink(x any) []any {
 // ---------------------------------------------------------------- running
 
 type outcome struct {
-	recs     []string
-	err      string
-	fs       *simfs.FS
-	top      *simfs.Reader
-	panicked string
-	sticky   string // violation text of the after-the-end probe
-	maxRec   int    // longest record returned (presentation form)
-	overflow bool   // gave up: more records than the tree can possibly denote
-	firedAt  int    // records returned before the call in which the first fault fired (-1 = none fired)
-	nexts    int
+	recs      []string
+	err       string
+	fs        *simfs.FS
+	top       *simfs.Reader
+	panicked  string
+	sticky    string // violation text of the after-the-end probe
+	maxRec    int    // longest record returned (presentation form)
+	overflow  bool   // gave up: more records than the tree can possibly denote
+	firedAt   int    // records returned before the call in which the first fault fired (-1 = none fired)
+	nexts     int
+	polls     int    // Err() calls made between records
+	pollErr   string // the first error such a call returned
+	pollErrAt int    // records returned up to then
 }
 
 // parse runs the zone parser over the tree. It is executed on its own
 // goroutine so that a parser that never terminates can be abandoned.
 func parse(sc *Scenario, faults []simfs.Fault, short int) (o *outcome) {
+	return parseHook(sc, faults, short, nil)
+}
+
+func parseHook(sc *Scenario, faults []simfs.Fault, short int, hook func(string)) (o *outcome) {
 	files := map[string][]byte{}
 	for _, f := range sc.Files {
 		files[f.Name] = []byte(f.Text())
@@ -533,6 +593,7 @@ func parse(sc *Scenario, faults []simfs.Fault, short int) (o *outcome) {
 	}
 	hardLimit = hardLimit*64 + 1000
 	o.fs = simfs.New(files, faults, short, core.Rng(sc.RunSeed^0xf5))
+	o.fs.Hook = hook
 	top := sc.Files[0]
 	o.top = o.fs.Reader(top.Name, files[top.Name])
 	defer func() {
@@ -571,6 +632,12 @@ func parse(sc *Scenario, faults []simfs.Fault, short int) (o *outcome) {
 			// far beyond anything the tree can denote: stop feeding memory
 			o.overflow = true
 			return o
+		}
+		if sc.PollErr {
+			o.polls++
+			if e := zp.Err(); e != nil && o.pollErr == "" {
+				o.pollErr, o.pollErrAt = e.Error(), len(o.recs)
+			}
 		}
 	}
 	if o.firedAt < 0 && hardFaults(o.fs) > 0 {
@@ -631,16 +698,40 @@ func libFrames(s string) string {
 }
 
 // guarded runs f on its own goroutine and gives up after limit of real time.
+//
+// It also watches the heap while f runs: a parse that has put more than memLimit
+// on it (the trees here are a few kilobytes; the largest legitimate result, 64
+// readings of a $GENERATE over its whole range, stays far below) is abandoned
+// at once, long before the machine feels it.
 func guarded[T any](limit time.Duration, f func() T) (v T, ok bool) {
 	ch := make(chan T, 1)
 	go func() { ch <- f() }()
-	select {
-	case v = <-ch:
-		return v, true
-	case <-time.After(limit):
-		return v, false
+	sample := []metrics.Sample{{Name: "/memory/classes/heap/objects:bytes"}}
+	metrics.Read(sample)
+	base := sample[0].Value.Uint64()
+	tick := time.NewTicker(10 * time.Millisecond)
+	defer tick.Stop()
+	end := time.After(limit)
+	for {
+		select {
+		case v = <-ch:
+			return v, true
+		case <-end:
+			return v, false
+		case <-tick.C:
+			metrics.Read(sample)
+			if now := sample[0].Value.Uint64(); now > base+memLimit {
+				memBlown = now - base
+				return v, false
+			}
+		}
 	}
 }
+
+const memLimit = 1 << 30
+
+// memBlown is set by guarded when it gave up because of the heap, not the clock.
+var memBlown uint64
 
 func Run(t *testing.T, scAny any, verbose bool) *core.Result {
 	sc := scAny.(*Scenario)
@@ -662,6 +753,8 @@ func Run(t *testing.T, scAny any, verbose bool) *core.Result {
 		runChain(sc, res, logf)
 	case "readrr", "privkey":
 		runSmall(sc, res, logf)
+	case "concurrent":
+		runConcurrent(t, sc, res, logf)
 	default:
 		runZone(sc, res, logf)
 	}
@@ -672,6 +765,10 @@ const limit = 20 * time.Second
 
 func hang(res *core.Result, what string) {
 	core.Abandon = true // the parser goroutine cannot be stopped: the worker process has to go
+	if memBlown > 0 {
+		res.Fail("P7", "memory-unbounded:"+what, "%s had put %d MiB on the heap and was still going when it was abandoned (the whole tree is a few kilobytes of text): memory is not proportional to the input", what, memBlown>>20)
+		return
+	}
 	res.Fail("P1", "no-termination:"+what, "%s did not terminate within %v of real time (typical: well under a millisecond)", what, limit)
 }
 
@@ -733,8 +830,8 @@ func runZone(sc *Scenario, res *core.Result, logf func(string, ...any)) {
 	maxLine := 0
 	for _, f := range sc.Files {
 		for _, l := range f.Lines {
-			if len(l) > maxLine {
-				maxLine = len(l)
+			if n := len(expand(l)); n > maxLine {
+				maxLine = n
 			}
 		}
 	}
@@ -1195,6 +1292,13 @@ func judgeOne(sc *Scenario, res *core.Result, o *outcome, which string) {
 		res.Fail("P2", "panic:"+firstFrame(o.panicked), "the parser panicked on the %s tree: %s", which, o.panicked)
 		return
 	}
+	if o.polls > 0 {
+		res.Bump("oracle.P3_no_records_after_err_reported")
+		if o.pollErr != "" && len(o.recs) > o.pollErrAt && !directiveInterrupted(sc) {
+			res.Fail("P3", "records-after-err", "Err() returned %q after %d records, and Next went on to return %d more (%s tree)", errTail(o.pollErr), o.pollErrAt, len(o.recs)-o.pollErrAt, which)
+			return
+		}
+	}
 	res.Bump("oracle.P3_sticky_end")
 	if o.sticky != "" {
 		res.Fail("P3", "end-not-sticky", "%s (%s tree)", o.sticky, which)
@@ -1368,6 +1472,130 @@ func selfIncludeThroughGenerate(sc *Scenario, res *core.Result, logf func(string
 	}
 }
 
+// --- another task of the application registers and removes a private record type while this one parses
+
+const privType = 65290
+
+type privRdata struct{ v string }
+
+func (p *privRdata) String() string { return p.v }
+func (p *privRdata) Parse(t []string) error {
+	p.v = strings.Join(t, " ")
+	return nil
+}
+func (p *privRdata) Pack(b []byte) (int, error)   { return copy(b, p.v), nil }
+func (p *privRdata) Unpack(b []byte) (int, error) { p.v = string(b); return len(b), nil }
+func (p *privRdata) Copy(d dns.PrivateRdata) error {
+	d.(*privRdata).v = p.v
+	return nil
+}
+func (p *privRdata) Len() int { return len(p.v) }
+
+type concTask struct {
+	k    *kernel.K
+	sc   *Scenario
+	out  *outcome
+	fin  *int
+	role string
+}
+
+func (c *concTask) RunEvent(time.Time) {
+	k := c.k
+	if c.role == "parser" {
+		o := parseHook(c.sc, nil, c.sc.ShortRead, func(site string) { k.Yield(site, 0) })
+		k.Lock()
+		*c.out = *o
+		*c.fin++
+		k.Unlock()
+		return
+	}
+	for i := 0; i < c.sc.Registrar; i++ {
+		k.Yield("registrar", 1)
+		if i%2 == 0 {
+			dns.PrivateHandle("XPRIV9", privType, func() dns.PrivateRdata { return &privRdata{} })
+		} else {
+			dns.PrivateHandleRemove(privType)
+		}
+	}
+	k.Lock()
+	*c.fin++
+	k.Unlock()
+}
+
+type concDone struct{ fin *int }
+
+func (d concDone) Check(time.Time) string {
+	if *d.fin == 2 {
+		return "done"
+	}
+	return ""
+}
+
+func runConcurrent(t *testing.T, sc *Scenario, res *core.Result, logf func(string, ...any)) {
+	if len(sc.Files) == 0 {
+		return
+	}
+	ref, ok := guarded(limit, func() *outcome { return parse(sc, nil, 0) })
+	if !ok {
+		hang(res, "parsing the fault-free tree")
+		return
+	}
+	judgeOne(sc, res, ref, "fault-free")
+	if res.Verdict != core.OK {
+		return
+	}
+	logf("reference: %d records (%x), err class %s", len(ref.recs), hashStrings(ref.recs, ref.err), errClass(ref.err))
+	res.Nontrivial = true
+	if core.Mode != "instr" {
+		// only where the library's locks are the scheduler's can a task be held while it owns one
+		res.Class = "concurrent/serial-only"
+		return
+	}
+	defer dns.PrivateHandleRemove(privType)
+	var run outcome
+	fin, outc, parked := 0, "", ""
+	common.Bubble(t, func() {
+		k := kernel.New(kernel.Config{Seed: sc.RunSeed, Strategy: int(sc.RunSeed % kernel.NumStrats), PCTDepth: 2, PCTSpan: 40, MaxSteps: 20000})
+		kernel.SetCurrent(k)
+		defer kernel.SetCurrent(nil)
+		k.Go("parser", &concTask{k: k, sc: sc, out: &run, fin: &fin, role: "parser"})
+		k.Go("registrar", &concTask{k: k, sc: sc, fin: &fin, role: "registrar"})
+		outc = k.Run(concDone{&fin})
+		res.Steps = k.Steps
+		for _, st := range k.Parked() {
+			parked += " " + st
+		}
+		if outc == kernel.Finished {
+			k.Abort()
+		}
+	})
+	logf("concurrent: %s after %d steps, %d records", outc, res.Steps, len(run.recs))
+	res.Bump("oracle.P1_terminates_beside_registration")
+	res.Add("fault.private_type_registered_meanwhile", sc.Registrar)
+	switch outc {
+	case kernel.Finished:
+	case kernel.Quiescent:
+		// every task waits for a lock another one holds: nothing can ever happen again
+		core.Abandon = true
+		res.Fail("P1", "no-termination:deadlock", "parsing a zone with a $GENERATE / $INCLUDE while another goroutine called PrivateHandle / PrivateHandleRemove (%d calls, for a type the zone does not use) came to a standstill after %d scheduling steps: every task waits for a lock (parked at:%s)", sc.Registrar, res.Steps, parked)
+		return
+	default:
+		core.Abandon = true
+		res.Verdict, res.Msg = core.Harness, "concurrent parse ended with "+outc
+		return
+	}
+	judgeOne(sc, res, &run, "concurrent")
+	if res.Verdict != core.OK {
+		return
+	}
+	res.Bump("oracle.P4_prefix")
+	if len(run.recs) != len(ref.recs) || errClass(run.err) != errClass(ref.err) || hashStrings(run.recs, "") != hashStrings(ref.recs, "") {
+		res.Fail("P4", "concurrent-registration-changes-result", "beside a task that registers and removes an unrelated private type the parser returned %d records (err %q), alone %d (err %q)", len(run.recs), run.err, len(ref.recs), ref.err)
+		return
+	}
+	res.Class = fmt.Sprintf("concurrent/reg=%d/%s", sc.Registrar, errClass(ref.err))
+}
+
 // runSmall: ReadRR and ReadPrivateKey over a faulty reader.
 func runSmall(sc *Scenario, res *core.Result, logf func(string, ...any)) {
 	if len(sc.Files) == 0 {
@@ -1463,5 +1691,5 @@ func runSmall(sc *Scenario, res *core.Result, logf func(string, ...any)) {
 }
 
 func init() {
-	core.Register(&core.Prop{ID: "C07", Gen: Gen, Decode: Decode, Run: Run, Shrink: Shrink, Modes: []string{"pristine"}})
+	core.Register(&core.Prop{ID: "C07", Gen: Gen, Decode: Decode, Run: Run, Shrink: Shrink, Modes: []string{"pristine", "instr"}})
 }
